@@ -343,10 +343,14 @@ int main(int argc, char** argv)
     auto dirs = directions(thorough);
     auto sphere = fibonacci(thorough ? 200 : 64);
     vf::OSampleOptions sopt;
-    sopt.lattice = thorough ? 25 : 17;
-    sopt.per_face = thorough ? 2 : 1;
+    sopt.lattice = 17;
+    sopt.per_face = thorough ? 4 : 1;
     if (thorough)
-        sopt.deltas = {0.003, 0.02, 0.08};
+    {
+        sopt.lattice = 31;
+        sopt.cand_per_chain = 48;
+        sopt.deltas = {0.001, 0.003, 0.02, 0.08};
+    }
     uint64_t outer = 0;
     for (size_t gi = 0; gi < zoo.size(); ++gi)
     {
